@@ -21,7 +21,7 @@ Definition w16 (z : Z) : Z := (z + 32768) mod 65536 - 32768.           (* i16::w
 Definition in_i16 (z : Z) : bool := (-32768 <=? z) && (z <=? 32767).
 Definition chk_i16 (z : Z) : option Z := if in_i16 z then Some z else None.
 
-Definition zlen (l : list Z) : Z := Z.of_nat (length l).
+Definition zlen {A : Type} (l : list A) : Z := Z.of_nat (length l).
 
 (* flags.contains(single-bit flag) *)
 Definition has (f bit : Z) : bool := negb (Z.land f bit =? 0).
@@ -118,9 +118,9 @@ Definition bbox_bytes (b : bbox_t) : list Z :=
 
 Record sglyph := { g_bbox : bbox_t; g_contours : list (list point); g_instr : list Z }.
 
-(* simple.rs: impl FontWrite for SimpleGlyph *)
-Definition write_simple (g : sglyph) : option (list Z) :=
-  let nc := zlen (map (fun _ => 0) (g_contours g)) in
+(* simple.rs: impl FontWrite for SimpleGlyph; [before] = bytes already in the TableWriter *)
+Definition write_simple (before : Z) (g : sglyph) : option (list Z) :=
+  let nc := zlen (g_contours g) in
   if 32767 <=? nc then None                                   (* assert!(contours.len() < i16::MAX) *)
   else if 65535 <=? zlen (g_instr g) then None                (* assert!(instructions.len() < u16::MAX) *)
   else if nc =? 0 then Some []
@@ -130,7 +130,7 @@ Definition write_simple (g : sglyph) : option (list Z) :=
     do fl <- entries_bytes (rle (map (fun d => fst (fst d)) deltas));;
     let xs := flat_map (fun d => cdelta_bytes (snd (fst d))) deltas in
     let ys := flat_map (fun d => cdelta_bytes (snd d)) deltas in
-    Some (pad2 0 (i16be nc ++ bbox_bytes (g_bbox g) ++ flat_map u16be ends
+    Some (pad2 before (i16be nc ++ bbox_bytes (g_bbox g) ++ flat_map u16be ends
                   ++ u16be (zlen (g_instr g)) ++ g_instr g ++ fl ++ xs ++ ys)).
 
 (* ---- composite.rs ---- *)
@@ -206,14 +206,14 @@ Fixpoint comps_bytes (cs : list comp) (last_flags : Z) : list Z :=
   end.
 
 (* composite.rs: impl FontWrite for CompositeGlyph; `(len as u16)` truncates *)
-Definition write_composite (g : cglyph) : option (list Z) :=
+Definition write_composite (before : Z) (g : cglyph) : option (list Z) :=
   match cg_comps g with
   | [] => None                                          (* .expect("empty composites ...") *)
   | _ =>
     let has_i := negb (zlen (cg_instr g) =? 0) in
-    Some (i16be (-1) ++ bbox_bytes (cg_bbox g)
+    Some (pad2 before (i16be (-1) ++ bbox_bytes (cg_bbox g)
           ++ comps_bytes (cg_comps g) (if has_i then HAVE_INSTR else 0)
-          ++ (if has_i then u16be (zlen (cg_instr g) mod 65536) ++ cg_instr g else []))
+          ++ (if has_i then u16be (zlen (cg_instr g) mod 65536) ++ cg_instr g else [])))
   end.
 
 (* ---- glyf.rs Glyph, glyf_loca_builder.rs ---- *)
@@ -224,15 +224,15 @@ Definition validate_glyph (g : glyph) : bool :=
   match g with
   | GEmpty => true
   | GSimple s => zlen (g_instr s) <=? 65535
-  | GComposite c => negb (zlen (map (fun _ => 0) (cg_comps c)) =? 0) && (zlen (cg_instr c) <=? 65535)
+  | GComposite c => negb (zlen (cg_comps c) =? 0) && (zlen (cg_instr c) <=? 65535)
   end.
 
 (* the bytes one glyph appends to the shared TableWriter; [before] = bytes already in it *)
 Definition write_glyph (before : Z) (g : glyph) : option (list Z) :=
   match g with
   | GEmpty => Some []
-  | GSimple s => do b <- write_simple s;; Some (pad2 before b)     (* b is already even-padded when before is even *)
-  | GComposite c => do b <- write_composite c;; Some (pad2 before b)
+  | GSimple s => write_simple before s
+  | GComposite c => write_composite before c
   end.
 
 (* GlyfLocaBuilder::add_glyph folded over the glyph list; state = (glyf bytes, raw_loca) *)
@@ -312,25 +312,18 @@ Fixpoint resolve_go (data : list Z) (left pos xl yl : Z) : option (Z * Z * Z) :=
 Definition resolve_coords_len (data : list Z) (points_total : Z) : option (Z * Z * Z) :=
   resolve_go data points_total 0 0 0.
 
-(* glyf.rs: PointIter::advance_flags over the whole flags slice.  [strict] = the overflow-checks
-   profile: `flag_repeats: u8 = repeat.unwrap_or(0) + 1` traps when the repeat byte is 255;
-   [strict = false] is the wrapping (release) reading, where 0 then `-= 1` wraps to 255 and the
-   flag is used 256 times.  None = panic. *)
-Definition repeats_plus_one (strict : bool) (r : Z) : option Z :=
-  if strict then chk_u 8 (r + 1) else Some (r + 1).
-Fixpoint expand_flags (strict : bool) (bs : list Z) : option (list Z) :=
+(* glyf.rs: PointIter::advance_flags over the whole flags slice:
+   `flag_repeats: u16 = repeat.unwrap_or(0) as u16 + 1` (1..=256, cannot overflow since 229e2c6) *)
+Fixpoint expand_flags (bs : list Z) : list Z :=
   match bs with
-  | [] => Some []
+  | [] => []
   | f :: rest =>
       if has f REPEAT then
         match rest with
-        | [] => Some [f]                               (* .then(read.ok()).flatten().unwrap_or(0) + 1 *)
-        | r :: rest' =>
-            do n <- repeats_plus_one strict r;;
-            do t <- expand_flags strict rest';;
-            Some (repeat f (Z.to_nat n) ++ t)
+        | [] => [f]                                    (* .then(read.ok()).flatten().unwrap_or(0) + 1 *)
+        | r :: rest' => repeat f (Z.to_nat (r + 1)) ++ expand_flags rest'
         end
-      else do t <- expand_flags strict rest;; Some (f :: t)
+      else f :: expand_flags rest
   end.
 
 (* glyf.rs: PointIter::advance_points, one axis; reads use unwrap_or(0), a failed read still advances *)
@@ -358,25 +351,25 @@ Fixpoint zip_points (xs ys fs : list Z) : list point :=
   end.
 
 (* glyf.rs: SimpleGlyph::points_impl + points(): None from points_impl = empty iterator *)
-Definition points (strict : bool) (ends glyph_data : list Z) : option (list point) :=
+Definition points (ends glyph_data : list Z) : list point :=
   match ends with
-  | [] => Some []
+  | [] => []
   | _ =>
     let lastp := last ends 0 in
-    if 65535 <=? lastp then Some []                             (* checked_add(1)? *)
+    if 65535 <=? lastp then []                             (* checked_add(1)? *)
     else
       match resolve_coords_len glyph_data (lastp + 1) with
-      | None => Some []
+      | None => []
       | Some (fl, xl, yl) =>
-          if zlen glyph_data <? fl + xl + yl then Some []
+          if zlen glyph_data <? fl + xl + yl then []
           else
             let flags := firstn (Z.to_nat fl) glyph_data in
             let rest := skipn (Z.to_nat fl) glyph_data in
             let xd := firstn (Z.to_nat xl) rest in
             let yd := skipn (Z.to_nat xl) rest in
-            do efl <- expand_flags strict flags;;
-            Some (zip_points (decode_coords X_SHORT X_SAME_POS efl xd 0)
-                             (decode_coords Y_SHORT Y_SAME_POS efl yd 0) efl)
+            let efl := expand_flags flags in
+            zip_points (decode_coords X_SHORT X_SAME_POS efl xd 0)
+                       (decode_coords Y_SHORT Y_SAME_POS efl yd 0) efl
       end
   end.
 
@@ -468,15 +461,15 @@ Definition composite_instructions (d : list Z) : Z * option (list Z) :=
 
 (* generated_glyf.rs: Glyph::read (dispatch on the sign of numberOfContours) *)
 Inductive rglyph :=
-| RSimple (nc : Z) (bb ends ins : list Z) (pts : option (list point))        (* pts None = points() panicked *)
+| RSimple (nc : Z) (bb ends ins : list Z) (pts : list point)
 | RComposite (bb : list Z) (comps : list rcomp) (ins : option (list Z)).
-Definition read_glyph (strict : bool) (d : list Z) : option rglyph :=    (* None = ReadError *)
+Definition read_glyph (d : list Z) : option rglyph :=    (* None = ReadError *)
   match d with
   | a :: b :: _ =>
       if 0 <=? s16 (rd16 a b) then
         do s <- read_simple d;;
         let '(nc, bb, ends, ins, gd) := s in
-        Some (RSimple nc bb ends ins (points strict ends gd))
+        Some (RSimple nc bb ends ins (points ends gd))
       else
         do h <- take 10 d;;
         Some (RComposite (map s16 (rd16s (skipn 2 (fst h)))) (read_comps (length (snd h)) (snd h))
@@ -561,26 +554,23 @@ Definition ser_rcomp (c : rcomp) : list Z :=
 
 (* the decoded view of a byte string as lists of numbers:
    [[1]] = ReadError;
-   [[2]; nc::bbox; ends; instr; [ptag]; dxs; dys; ons]  (ptag 0 = points() panicked)
+   [[2]; nc::bbox; ends; instr; [ptag]; dxs; dys; ons]  (ptag 1; the harness writes 0 if points() panicked)
    [[3]; bbox; comps; [itag]; instr] *)
-Definition ser_decode (strict : bool) (d : list Z) : list (list Z) :=
-  match read_glyph strict d with
+Definition ser_decode (d : list Z) : list (list Z) :=
+  match read_glyph d with
   | None => [[1]]
-  | Some (RSimple nc bb ends ins pts) =>
-      match pts with
-      | None => [[2]; nc :: bb; ends; ins; [0]; []; []; []]
-      | Some p => let '(a, b, c) := rel_points 0 0 p in [[2]; nc :: bb; ends; ins; [1]; a; b; c]
-      end
+  | Some (RSimple nc bb ends ins p) =>
+      let '(a, b, c) := rel_points 0 0 p in [[2]; nc :: bb; ends; ins; [1]; a; b; c]
   | Some (RComposite bb cs ins) =>
       [[3]; bb; flat_map ser_rcomp cs] ++
       (match ins with None => [[0]; []] | Some i => [[1]; i] end)
   end.
 
-Definition ser_enc (strict : bool) (e : option (list Z)) : list (list Z) :=
+Definition ser_enc (e : option (list Z)) : list (list Z) :=
   match e with
   | None => [[0]]                                          (* writer panicked *)
   | Some [] => [[1]; []]                                   (* nothing written (no contours) *)
-  | Some b => [[1]; b] ++ ser_decode strict b
+  | Some b => [[1]; b] ++ ser_decode b
   end.
 
 (* glyph list for builder cases: each glyph = [[0]] | [[1]] ++ 6 lists | [[3]] ++ 3 lists *)
@@ -596,5 +586,61 @@ Fixpoint mk_glyphs (fuel : nat) (l : list (list Z)) : list glyph :=
     end
   end.
 
+Fixpoint wsum (i acc : Z) (l : list Z) : Z :=
+  match l with [] => acc | b :: r => wsum (i + 1) ((acc + i * b) mod 65521) r end.
 Definition ser_slice (r : rres (option (list Z))) : list Z :=
-  match r with RPanic => [0] | RErr => [1] | ROk None => [2] | ROk (Some s) => [3; zlen s; fnv_dummy_placeholder] end.
+  match r with
+  | RPanic => [0] | RErr => [1] | ROk None => [2]
+  | ROk (Some s) => [3; zlen s; wsum 1 0 s]
+  end.
+
+Definition zseq (n : nat) : list Z := map Z.of_nat (seq 0 n).
+
+(* kind, inputs -> outputs *)
+Definition eval_case (kind : Z) (ins : list (list Z)) : list (list Z) :=
+  match kind, ins with
+  | 1, [bb; lens; dxs; dys; ons; instr] =>            (* dump_table(&SimpleGlyph) then Glyph::read *)
+      let g := mk_simple bb lens dxs dys ons instr in
+      if validate_glyph (GSimple g) then ser_enc (write_simple 0 g) else [[2]]
+  | 2, [bytes] => ser_decode bytes                        (* Glyph::read on arbitrary bytes *)
+  | 3, [bb; cs; instr] =>
+      let g := mk_composite bb cs instr in
+      if validate_glyph (GComposite g) then ser_enc (write_composite 0 g) else [[2]]
+  | 4, [offs] =>                                          (* Loca::new + dump_table + Loca::read + get_raw *)
+      let long := loca_is_long offs in
+      let bytes := loca_bytes offs in
+      [[if long then 1 else 0]; bytes;
+       match loca_read bytes long with
+       | None => [-2]
+       | Some es => map (fun i => match get_raw es long i with Some v => v | None => -1 end) (zseq (S (length offs)))
+       end]
+  | 5, gl =>                                              (* GlyfLocaBuilder *)
+      match build (mk_glyphs (length gl) gl) with
+      | None => [[0]]
+      | Some (glyf, loca, long) =>
+          let lb := loca_bytes loca in
+          [[1]; glyf; [if long then 1 else 0]; lb;
+           match loca_read lb long with
+           | None => [-2]
+           | Some es => flat_map (fun i => ser_slice (get_glyf_slice es long glyf i)) (zseq (length loca))
+           end]
+      end
+  | _, _ => [[-999]]
+  end.
+
+Fixpoint zlist_eqb (a b : list Z) : bool :=
+  match a, b with
+  | [], [] => true
+  | x :: r, y :: s => (x =? y) && zlist_eqb r s
+  | _, _ => false
+  end.
+Fixpoint zll_eqb (a b : list (list Z)) : bool :=
+  match a, b with
+  | [], [] => true
+  | x :: r, y :: s => zlist_eqb x y && zll_eqb r s
+  | _, _ => false
+  end.
+
+Definition check_case (c : Z * list zl * list zl) : bool :=
+  let '(kind, ins, outs) := c in
+  zll_eqb (eval_case kind (map unchunk ins)) (map unchunk outs).
